@@ -298,6 +298,9 @@ def run(tier, seed):
     v.assumptions += ["PTY tasks are not exercised (no pty in this sandbox); pipes tasks only",
                       "an actor counts as blocked when no hook event was recorded for 300 ms",
                       "files changed by bash cannot be known to the authority: its frame is checked for order and presence, not for paths"]
+    # the repository's own tests as drivers: every recorded execution against the monitor half of System.tla
+    from .. import suite
+    suite.check(v, wd)
     return v.finish(
         rule="cases = (holder, program counter) states of WorkspaceLock enumerated by TLC, each forced by parking the holder at the hook point "
              "while the 8 other actors of the cast run, plus seeded-delay runs; non-trivial = at least two mutating executions in the trace; "
@@ -308,6 +311,9 @@ def run(tier, seed):
 def replay(path, seed):
     with open(path) as f:
         rep = json.load(f)
+    if rep["case"].get("engine") == "suite":
+        from .. import suite
+        return suite.replay(PROP, path, rep["case"])
     wd = workdir(PROP + "-replay")
     case = rep["case"]["case"]
     res = run_harness("wslock", [case], wd, "replay")[0]
